@@ -20,6 +20,10 @@ def run(ctx, R, tier):
     speed_units(F, R)
     speed_conversions(F, R)
     add_negative_first(F, R)
+    # 'the three clock-speed units convert consistently': a speed is not adjusted unit by unit on its way to the clock
+    from .c07 import payload_verbatim
+    payload_verbatim(F, R, rule='B.C19.payload', fn_filter=lambda q: q.startswith('clock::'), floor=3)
+    pair_published(F, R)
     # 'clock-time arithmetic keeps the fraction in [0, 1)': so does the fraction a handle reads (published at full width)
     from .c05 import published_width
     published_width(F, R, rule='B.C19.published', fn_filter=lambda q: q.startswith('clock::'), floor=4)
@@ -293,6 +297,37 @@ def cmp_(F, R):
             why = 'a path does not compare the clocks'
     R.check(ok and seen == {'different-clock', 'equal-ticks', 'ticks'}, 'B.C19.cmp', 'partial_cmp', why or 'branches %s' % sorted(seen),
             detail={'branches': sorted(seen)}, where=b.file)
+
+
+def pair_published(F, R, rule='B.C19.published'):
+    """'Ordering agrees with ticks + fraction' for what a handle reads: the tick count and the fraction are two atomics that
+    make one time, published together once per callback (`update_shared`, at the end of `on_start_processing`).  Nothing is
+    published while the clock is being advanced (`Clock::update`, between two callbacks): a tick count published there, with
+    the fraction following at the next callback, pairs the new count with the old fraction - the reported time jumps ahead
+    and then goes backwards."""
+    v = F.inlined_view('clock::Clock::update', depth=2, pred=lambda hp: hp.startswith('clock::')) or F.body('clock::Clock::update')
+    if not R.check(v is not None, rule, 'anchor:update', 'Clock::update not found'):
+        return
+    pub = []
+    for bb, t in v.calls():
+        cp = callee_path(t) or ''
+        if cp.startswith('std::sync::atomic::Atomic') and cp.split('::')[-1] in ('store', 'swap', 'fetch_add', 'fetch_sub', 'fetch_max', 'compare_exchange'):
+            d = describe(v, t['args'][0], depth=5, at=bb)
+            if d.rstrip(')').endswith(('.ticks', '.fractional_position')):
+                pub.append(d[-40:])
+    R.check(not pub, rule, 'not-while-advancing', 'Clock::update publishes %s between two callbacks: half of the clock time, ahead of the other half' % pub[:2],
+            detail='ClockShared is written by update_shared (on_start_processing) and by the handle\'s stop only', where=v.file)
+    us = F.body('clock::Clock::update_shared')
+    if R.check(us is not None, rule, 'anchor:update_shared', 'Clock::update_shared not found'):
+        st = {'ticks': 0, 'fractional_position': 0}
+        for bb, t in us.calls():
+            cp = callee_path(t) or ''
+            if cp.startswith('std::sync::atomic::Atomic') and cp.split('::')[-1] == 'store':
+                d = describe(us, t['args'][0], depth=5, at=bb)
+                for f in st:
+                    if d.rstrip(')').endswith('.' + f):
+                        st[f] += 1
+        R.check(st == {'ticks': 1, 'fractional_position': 1}, rule, 'pair', 'update_shared publishes %s' % st, detail=st, where=us.file)
 
 
 def add_negative_first(F, R, rule='B.C19.add'):
